@@ -17,6 +17,14 @@ def sharded(bin_, n, timeout, flavour="native", extra=None, name=None, serial=Fa
                  name="%s-%s-%d" % (name or bin_, flavour, i), serial=serial) for i in range(n)]
 
 
+def miri(bin_, name, args, miriflags="-Zmiri-disable-isolation", timeout=5400, env=None):
+    """A shard executed by `cargo +nightly miri run` (thorough tier only: the first Miri shard of a run also compiles the
+    harness for Miri, 5-12 min). Reports (Undefined Behavior, data race, deadlock) become violations in the driver."""
+    e = {"VH_SLOW": "300"}
+    e.update(env or {})
+    return dict(bin=bin_, kind="miri", miriflags=miriflags, args=args, timeout=timeout, name=name, env=e)
+
+
 PROPS = {}
 
 PROPS["C03"] = dict(
@@ -143,11 +151,19 @@ PROPS["C08"] = dict(
          "accepted multiset, per-pipe order, no duplicates, and at quiescence queued_count == reserved_count == channel occupancy; a consumer "
          "asleep while a pipe holds items and the ready list is empty is a lost wake-up. (notify) a gate at the point between check and "
          "notified() in LoadBalancer::wait_for_connection and WaitGroup::wait holds the waiter while the condition is made true; the waiter "
-         "must complete. distinct = (config, seed).",
+         "must complete. distinct = (config, seed). (thorough) four ThreadSanitizer shards of the rpq histories, and eight Miri shards (one "
+         "scheduler seed each, 12 tiny histories: 1-2 producers x 3 items, capacity 1-2, all sender kinds and enqueue modes, 1-2 consumers, "
+         "2-worker runtime): Miri preempts at random basic blocks, emulates weak memory (stale Relaxed/Acquire loads) and detects data races, "
+         "with the same multiset/order/counter oracle. Stacked Borrows is switched off for these shards because the third-party fibre queue "
+         "underneath trips it on the first send.",
     assumptions=["interleavings are sampled with widened windows, not enumerated; evidence counts distinct hook-hit orders sampled",
                  "stuck detection uses a 1.5 s no-progress window only after which the (stable) structural predicate is evaluated"],
     shards=lambda tier, seed: sharded("c08", _n(tier, 12, 16), _n(tier, 180, 900))
-    + [dict(bin="c08", args=["--only", "notify"], timeout=120, name="c08-notify")],
+    + [dict(bin="c08", args=["--only", "notify"], timeout=120, name="c08-notify")]
+    + ([dict(bin="c08", flavour="tsan", args=["--shard", "%d/4" % i], timeout=1500, name="c08-tsan-%d" % i) for i in range(4)]
+       + [miri("c08", "c08-miri-%d" % i, ["--only", "miri", "--cases", 12, "--first", 4 * i, "--shard", "%d/8" % i],
+               miriflags="-Zmiri-disable-isolation -Zmiri-disable-stacked-borrows -Zmiri-seed=%d" % i) for i in range(8)]
+       if tier == "thorough" else []),
     min_evaluations={"quick": 500, "thorough": 5000},
 )
 
@@ -160,7 +176,9 @@ PROPS["C12"] = dict(
          "matches() on that family must be false at every instant. (e2e) PUB->1..3 SUB over tcp/inproc/ipc, subscription changes only at "
          "quiescent points delimited by an always-subscribed sentinel, multipart filtered on frame 0 only: received == published filtered by the "
          "reference. (stall) PUB with SNDHWM=4 and 64 KiB messages while raw subscribers handshake and then stop reading / vanish: every "
-         "send() returns within 1 s and the reading subscriber gets everything in order. distinct = histories / (transport, round, subscriber).",
+         "send() returns within 1 s and the reading subscriber gets everything in order. distinct = histories / (transport, round, subscriber). "
+         "(thorough) the race layer again inside Miri (6 scheduler seeds, mutator bounded by 400 operations): data-race detector, default "
+         "aliasing model and weak-memory emulation - loads may return stale values x86 never shows - with the same never-covered-family oracle.",
     assumptions=["'when the message reaches it' is made unambiguous by changing subscriptions only between sentinel-delimited bursts",
                  "publisher promptness bound: 1 s per send (the defective path blocks 30 s)"],
     shards=lambda tier, seed: sharded("c12", _n(tier, 4, 8), _n(tier, 300, 1200))
@@ -169,7 +187,9 @@ PROPS["C12"] = dict(
     + sharded("c12", 3, 300, extra=["--only", "stall"], name="c12-stall")
     + sharded("c12", _n(tier, 2, 4), 600, extra=["--only", "contend"], name="c12-contend")
     + ([dict(bin="c12", flavour="tsan", args=["--only", "contend", "--shard", "%d/4" % i], timeout=1500, name="c12-tsan-contend-%d" % i) for i in range(4)]
-       + [dict(bin="c12", flavour="tsan", args=["--only", "race"], timeout=1500, name="c12-tsan-race")] if tier == "thorough" else []),
+       + [dict(bin="c12", flavour="tsan", args=["--only", "race"], timeout=1500, name="c12-tsan-race")]
+       + [miri("c12", "c12-miri-race-%d" % i, ["--only", "mirirace", "--ops", 400, "--rounds", 2, "--shard", "%d/6" % i],
+               miriflags="-Zmiri-disable-isolation -Zmiri-seed=%d" % i) for i in range(6)] if tier == "thorough" else []),
     min_evaluations={"quick": 10000, "thorough": 100000},
 )
 
@@ -218,10 +238,17 @@ PROPS["C02"] = dict(
          "half read with recv(), then ANOTHER peer attaches / closes / is killed (waited for on the monitor), then reading continues. "
          "(oversize) 255/256/300 frames via send_multipart and frame-by-frame on PUSH/DEALER/PUB/ROUTER: an error at the sender or a closed "
          "connection, never a panic (caller's task included) and never a truncated delivery; the receiver must still serve a healthy peer. "
+         "(fbmodel) FrameBatch, the container every multipart message travels in (2 inline slots, then a 255-slot vector over hand-written "
+         "unsafe code), driven through its public API by random operation sequences (push/pop/insert/remove/extend/iter_mut/last_mut/clone/"
+         "into_iter/from/index, lengths 0..255) and compared with a Vec after every step - natively (600 histories) and, thorough tier, inside "
+         "Miri with its default aliasing model (4 shards x 50 histories). "
          "distinct = (receiver, style, transport, peers, shapes).",
     assumptions=["ROUTER.send_multipart is given correctly flagged frames, as its documentation demands",
                  "DEALER senders are paced (15 ms) because DEALER egress ordering is a recorded C01 finding"],
-    shards=lambda tier, seed: sharded("c02", _n(tier, 12, 16), _n(tier, 300, 1800)),
+    shards=lambda tier, seed: sharded("c02", _n(tier, 12, 16), _n(tier, 300, 1800))
+    + [dict(bin="c02", args=["--only", "fbmodel"], timeout=600, name="c02-fbmodel")]
+    + ([miri("c02", "c02-miri-fbmodel-%d" % i, ["--only", "fbmodel", "--histories", 50, "--ops", 40, "--shard", "%d/4" % i],
+             miriflags="-Zmiri-disable-isolation -Zmiri-seed=%d" % i) for i in range(4)] if tier == "thorough" else []),
     min_evaluations={"quick": 60, "thorough": 400},
 )
 
